@@ -35,6 +35,11 @@ Theorem C02_entry_equals_single : forall reg h t c e, is_object_text e = true ->
 Proof. exact c02_entry_equals_single. Qed.
 Print Assumptions C02_entry_equals_single.
 
+(* exactly one response for each call-or-invalid entry, none for a notification, in entry order *)
+Theorem C02_one_response_per_entry : forall reg h t c es, (length (entry_responses reg h t c es) = length (filter answered es) /\ (forall es1 e es2, es = es1 ++ e :: es2 -> entry_responses reg h t c es = entry_responses reg h t c es1 ++ opt_list (entry_response reg h t c e) ++ entry_responses reg h t c es2)) /\ (forall e, (entry_response reg h t c e = None <-> classify_entry e = ENotif) /\ (answered e = false <-> classify_entry e = ENotif)).
+Proof. exact (fun reg h t c es => conj (c02_response_count reg h t c es) (fun e => conj (entry_response_none_iff reg h t c e) (answered_false_iff e))). Qed.
+Print Assumptions C02_one_response_per_entry.
+
 Theorem C02_only_size_limit_replaces_array : forall reg h t c b body es, sniff t b = Some (false, body) -> admitted c body es -> let rs := entry_responses reg h t c es in rs <> [] -> let own := m_json (rpc_batch reg h t c body) in In own (o_frames (handle reg h t c b)) /\ ((own = array_of rs /\ blen (array_of rs) <= sc_max_response c) \/ (own = too_big_batch (sc_max_response c) /\ sc_max_response c < blen (array_of rs))).
 Proof. exact c02_only_size_limit. Qed.
 Print Assumptions C02_only_size_limit_replaces_array.
